@@ -46,6 +46,7 @@ type vShadow struct {
 	canceled bool
 	envSent  bool
 	sentinel bool // contains vSentinel
+	twoW     bool // built with cerrors.Errorf carrying two %w verbs somewhere (the recorded known finding)
 }
 
 var vSentinel = cerrors.New("verif sentinel")
@@ -143,7 +144,9 @@ func (b *vBuilder) build() (error, vShadow) {
 	default: // two %w verbs in one cerrors.Errorf
 		e1, s1 := b.build()
 		e2, s2 := b.build()
-		return cerrors.Errorf("%w (while handling: %w)", e1, e2), joinShadow(s1, s2)
+		js := joinShadow(s1, s2)
+		js.twoW = true
+		return cerrors.Errorf("%w (while handling: %w)", e1, e2), js
 	}
 }
 
@@ -153,6 +156,7 @@ func joinShadow(a, b vShadow) vShadow {
 	out.canceled = a.canceled || b.canceled
 	out.envSent = a.envSent || b.envSent
 	out.sentinel = a.sentinel || b.sentinel
+	out.twoW = a.twoW || b.twoW
 	if !a.hasCode && b.hasCode {
 		out.hasCode, out.code = true, b.code
 	}
@@ -185,21 +189,30 @@ func VerifC20Trees() {
 	b := &vBuilder{budget: verifParam("nodes", 3), doubleW: verifParam("doubleW", 0) == 1,
 		joinsOnly: verifParam("joinsOnly", 0) == 1, plainLeaves: verifParam("joinsOnly", 0) == 1}
 	e, s := b.build()
-	verifAssert(cerrors.IsFatalError(e) == s.fatal, "c20-fatal-mark-lost-or-invented")
-	ce, ok := conduiterr.Get(e)
-	verifAssert(ok == s.hasCode, "c20-code-lost-or-invented")
-	if ok && s.hasCode {
-		verifAssert(ce.Code.Reason() == s.code.Reason(), "c20-code-changed")
-		verifAssert(ce.Code.GRPCCode() == s.code.GRPCCode(), "c20-grpc-category-changed")
+	// violations on trees that contain the two-%w constructor are the recorded
+	// known finding: they carry their own label family so that nothing else is
+	// ever matched by it
+	L := func(label string) string {
+		if s.twoW {
+			return "c20-2w-" + label[4:]
+		}
+		return label
 	}
-	verifAssert(cerrors.Is(e, vSentinel) == s.sentinel, "c20-sentinel-lost")
-	verifAssert(cerrors.Is(e, context.Canceled) == s.canceled, "c20-canceled-lost")
-	verifAssert(ExitCode(e) == refExit(s), "c20-exit-code")
+	verifAssert(cerrors.IsFatalError(e) == s.fatal, L("c20-fatal-mark-lost-or-invented"))
+	ce, ok := conduiterr.Get(e)
+	verifAssert(ok == s.hasCode, L("c20-code-lost-or-invented"))
+	if ok && s.hasCode {
+		verifAssert(ce.Code.Reason() == s.code.Reason(), L("c20-code-changed"))
+		verifAssert(ce.Code.GRPCCode() == s.code.GRPCCode(), L("c20-grpc-category-changed"))
+	}
+	verifAssert(cerrors.Is(e, vSentinel) == s.sentinel, L("c20-sentinel-lost"))
+	verifAssert(cerrors.Is(e, context.Canceled) == s.canceled, L("c20-canceled-lost"))
+	verifAssert(ExitCode(e) == refExit(s), L("c20-exit-code"))
 	// marking fatal twice changes nothing; marking keeps code
 	f := cerrors.FatalError(e)
-	verifAssert(cerrors.IsFatalError(f), "c20-fatal-not-fatal")
+	verifAssert(cerrors.IsFatalError(f), L("c20-fatal-not-fatal"))
 	_, ok2 := conduiterr.Get(f)
-	verifAssert(ok2 == s.hasCode, "c20-fatal-mark-changes-code")
+	verifAssert(ok2 == s.hasCode, L("c20-fatal-mark-changes-code"))
 	verifObserve("class", s.fatal, s.hasCode, s.canceled, ExitCode(e))
 	verifCover("end")
 }
